@@ -299,6 +299,41 @@ pub fn run(ctx: &Ctx) -> i32 {
             }
         }
     }
+    // (c) what OTHER builders did earlier in this process is not part of the input: sequences under cache pressure are built, then an
+    //     unrelated builder with 1.2 (thorough 4.5) million keys is filled and finished, then the sequences are built again, on this
+    //     thread and on a fresh one
+    {
+        let mut seqs: Vec<Kv> = vec![];
+        for (j, nk) in [60_000u64, 140_000].iter().enumerate() {
+            let mut ks: Vec<u64> = (0..*nk).map(|i| crate::rng::mix(i ^ ctx.seed ^ (j as u64) << 40) % 4_000_000_000).collect();
+            ks.sort();
+            ks.dedup();
+            seqs.push(ks.iter().enumerate().map(|(i, k)| (format!("{:010}", k).into_bytes(), if j == 0 { 0 } else { (i as u64 * 2654435761) % 1000 })).collect());
+        }
+        let before: Vec<Option<(u64, u64)>> = seqs.iter().map(|kv| guard(|| build::build(Front::MapInsert, kv)).ok().and_then(|r| r.ok()).map(|b| digest(&b))).collect();
+        let nhuge: u64 = ctx.tier.pick(1_200_000, 4_500_000);
+        let huge = guard(|| {
+            let mut b = fst::MapBuilder::new(std::io::sink()).map_err(|e| e.to_string())?;
+            for i in 0..nhuge {
+                b.insert(format!("{:012}", i * 3), i % 17).map_err(|e| e.to_string())?;
+            }
+            b.finish().map_err(|e| e.to_string())
+        });
+        if !matches!(huge, Ok(Ok(()))) {
+            ev.violate("build-error", format!("a builder with {} keys streaming to io::sink() failed", nhuge), J::U(nhuge));
+        }
+        for (j, kv) in seqs.iter().enumerate() {
+            for place in 0..2 {
+                ev.eval(Some(crate::rng::fnv_u64(0x15_b16, (j * 2 + place) as u64)));
+                ev.count("paths-compared");
+                ev.count("paths-compared:after-a-huge-unrelated-build");
+                let again = if place == 0 { guard(|| build::build(Front::MapInsert, kv)).ok().and_then(|r| r.ok()).map(|b| digest(&b)) } else { std::thread::scope(|s| s.spawn(|| guard(|| build::build(Front::MapInsert, kv)).ok().and_then(|r| r.ok()).map(|b| digest(&b))).join().ok().flatten()) };
+                if again != before[j] || again.is_none() {
+                    ev.violate("bytes-differ", format!("a sequence of {} keys gives different bytes ({:?} vs {:?}) after an unrelated builder with {} keys was finished in the same process ({})", kv.len(), before[j], again, nhuge, if place == 0 { "same thread" } else { "fresh thread" }), J::U(kv.len() as u64));
+                }
+            }
+        }
+    }
     // (a) rejected inserts are not part of the accepted sequence: a builder that refused calls in between (duplicates
     //     with smaller/equal/larger values, out-of-order keys) must emit the same bytes as a clean build
     // (b) the number of builders alive in the process is not part of the input either
